@@ -35,6 +35,42 @@ def h_accumulate(em, name, r, args, n, rvalue):
     em.rules['std::accumulate-as-fold-loop'] += 1
     return acc
 
+def inline_lambda(em, lam, argtexts):
+    """lambda whose body is a single `return expr;` -> that expression with parameters bound to the
+    given lvalue texts; captured variables are the enclosing function's own variables"""
+    n = em.skip(lam)
+    if n.get('kind') != 'LambdaExpr': raise Unsupported('expected lambda, got %s' % n.get('kind'))
+    rec = n['inner'][0]
+    op = [c for c in rec.get('inner', []) if c.get('kind') == 'CXXMethodDecl' and c.get('name') == 'operator()']
+    if not op: raise Unsupported('lambda without operator()')
+    op = op[0]
+    params = em.params_of(op)
+    body = [c for c in op.get('inner', []) if c.get('kind') == 'CompoundStmt'][0]
+    stmts = body.get('inner', [])
+    if len(stmts) != 1 or stmts[0].get('kind') != 'ReturnStmt' or len(params) != len(argtexts):
+        raise Unsupported('lambda is not a single return statement at ' + em.where(n))
+    for p, a in zip(params, argtexts): em.vars[p['id']] = ('alias', a)
+    em.rules['lambda-inlined(single return)'] += 1
+    return em.expr(stmts[0]['inner'][0], rvalue=True)
+
+def h_find_if(em, name, r, args, n, rvalue):
+    if name not in ('find_if', 'any_of', 'all_of', 'none_of') or len(args) != 3: return None
+    first, last, lam = args
+    cont = em.find_container_in(first); ct = em.container_type(first)
+    if cont is None or ct is None: raise Unsupported('%s over unknown container at %s' % (name, em.where(n)))
+    em.require_full_range(first, last, n)
+    res = em.tmp('found'); j = em.tmp('j')
+    cond = inline_lambda(em, lam, ['%s.data[%s]' % (cont, j)])
+    em.pre.append('size_t %s = %s.size;' % (res, cont))
+    em.pre.append('{ size_t %s; for (%s = 0; %s < %s.size; ++%s)' % (j, j, j, cont, j))
+    em.pre.append(em.loop_marker())
+    em.pre.append('  { if (%s == %s.size && (%s)) %s = %s; } }' % (res, cont, cond if name != 'all_of' else '!(%s)' % cond, res, j))
+    em.rules['std::%s-as-loop' % name] += 1
+    if name == 'find_if': return res
+    if name == 'any_of': return '(%s != %s.size)' % (res, cont)
+    return '(%s == %s.size)' % (res, cont)      # all_of / none_of
+
 def install(em):
     em.lambda_n = {}
     em.hooks['lib_call'].append(h_accumulate)
+    em.hooks['lib_call'].append(h_find_if)
